@@ -353,7 +353,28 @@ func Add(a, b *Term) *Term {
 	if a.Op == "#int" && a.Lit == "0" {
 		return b
 	}
+	// (x + c1) + c2 -> x + (c1+c2);  (x - c1) + c2 likewise
+	if b.Op == "#int" && len(a.Args) == 2 && a.Args[1].Op == "#int" {
+		c1, _ := strconv.ParseInt(a.Args[1].Lit, 10, 64)
+		c2, _ := strconv.ParseInt(b.Lit, 10, 64)
+		if a.Op == "+" {
+			return addConst(a.Args[0], c1+c2)
+		}
+		if a.Op == "-" {
+			return addConst(a.Args[0], c2-c1)
+		}
+	}
 	return App("+", SInt, a, b)
+}
+
+func addConst(x *Term, c int64) *Term {
+	if c == 0 {
+		return x
+	}
+	if c < 0 {
+		return App("-", SInt, x, IntLit(-c))
+	}
+	return App("+", SInt, x, IntLit(c))
 }
 func Sub(a, b *Term) *Term {
 	if a.Op == "#int" && b.Op == "#int" {
@@ -363,6 +384,16 @@ func Sub(a, b *Term) *Term {
 	}
 	if b.Op == "#int" && b.Lit == "0" {
 		return a
+	}
+	if b.Op == "#int" && len(a.Args) == 2 && a.Args[1].Op == "#int" {
+		c1, _ := strconv.ParseInt(a.Args[1].Lit, 10, 64)
+		c2, _ := strconv.ParseInt(b.Lit, 10, 64)
+		if a.Op == "+" {
+			return addConst(a.Args[0], c1-c2)
+		}
+		if a.Op == "-" {
+			return addConst(a.Args[0], -c1-c2)
+		}
 	}
 	return App("-", SInt, a, b)
 }
@@ -425,7 +456,36 @@ func Forall(vars []*Term, body *Term, pats ...[]*Term) *Term {
 	if body.IsTrue() || len(vars) == 0 {
 		return body
 	}
-	return &Term{Op: "forall", Sort: SBool, BV: vars, Args: []*Term{body}, Pats: pats}
+	return &Term{Op: "forall", Sort: SBool, BV: vars, Args: []*Term{body}, Pats: validPatterns(vars, pats)}
+}
+
+// validPatterns keeps the multi-patterns that are well-formed triggers: every element is an
+// application (not a literal, variable or boolean connective) and together they bind all variables.
+func validPatterns(vars []*Term, pats [][]*Term) [][]*Term {
+	var out [][]*Term
+	for _, p := range pats {
+		syms := map[string]bool{}
+		ok := len(p) > 0
+		for _, t := range p {
+			switch t.Op {
+			case "#int", "#str", "#bool", "and", "or", "not", "=>", "=", "ite", "forall", "exists", "<", "<=", ">", ">=", "+", "-":
+				ok = false
+			}
+			if len(t.Args) == 0 {
+				ok = false
+			}
+			collectSyms(t, map[string]bool{}, syms)
+		}
+		for _, v := range vars {
+			if !syms[v.Op] {
+				ok = false
+			}
+		}
+		if ok {
+			out = append(out, p)
+		}
+	}
+	return out
 }
 func Exists(vars []*Term, body *Term) *Term {
 	if body.IsFalse() || len(vars) == 0 {
@@ -467,6 +527,9 @@ func subst(t *Term, m map[string]*Term) *Term {
 				q = append(q, subst(x, m2))
 			}
 			np = append(np, q)
+		}
+		if t.Op == "forall" {
+			np = validPatterns(t.BV, np)
 		}
 		return &Term{Op: t.Op, Sort: t.Sort, BV: t.BV, Args: []*Term{nb}, Pats: np}
 	}
